@@ -12,3 +12,26 @@ int fx17_unchecked(uint32_t cp) {
     const uint8_t *const *plane = planes[cp >> 16];
     return plane ? 1 : 0;
 }
+/* fold agreement: what the classifier announces must be what the table-driven emitter writes */
+#include <stddef.h>
+static const struct { unsigned upper, lower1, lower2; } ftbl2[] = {{0xdf, 0x73, 0x73}, {0x130, 0x69, 0x307}, {0x149, 0x2bc, 0x6e}, {0, 0, 0}};
+int fx17_isw_good(const unsigned wc) {
+    if (wc < 0xdf || wc > 0x149) return 0;
+    if (wc == 0xdf || wc == 0x130 || wc == 0x149) return 2;
+    return 0;
+}
+int fx17_isw_forgets(const unsigned wc) {           /* U+0149 was added to the table but not to the classifier */
+    if (wc < 0xdf || wc > 0x149) return 0;
+    if (wc == 0xdf || wc == 0x130) return 2;
+    return 0;
+}
+int fx17_tow_chk(int *dest, size_t dmax, const unsigned src) {
+    int i;
+    if (!dest || dmax < 4) return -1;
+    for (i = 0; ftbl2[i].upper; i++) {
+        if (ftbl2[i].upper == src) { dest[0] = ftbl2[i].lower1; dest[1] = ftbl2[i].lower2; dest[2] = 0; return 2; }
+        if (ftbl2[i].upper > src) break;
+    }
+    dest[0] = src; dest[1] = 0;
+    return 1;
+}
